@@ -2,7 +2,7 @@
 //! here from how the request was built (never by asking the library). Body decodability is known by
 //! construction and double-checked with the third-party codecs (serde_json / beve), not with repe.
 
-use super::srv::{ALL_T, CODES, ERASED_OP_ERR_PAYLOAD, FAIL_MODES, OP_ERR_PAD, T, Tin, Tout, code_of, erased_spec, fail_name, fail_of, reg_val, slice_result};
+use super::srv::{ALL_T, REENT_FN_T, rr_const, CODES, ERASED_OP_ERR_PAYLOAD, FAIL_MODES, OP_ERR_PAD, T, Tin, Tout, code_of, erased_spec, fail_name, fail_of, reg_val, slice_result};
 use crate::common::*;
 use crate::oracle::{self, SpecHeader};
 use serde_json::{Value, json};
@@ -351,6 +351,11 @@ fn build_body(t: T, token: u64, qlen: usize, rng: &mut Rng, st: &mut GenStats) -
             };
             let variant = ["echo-query", "own-query", "returns-err", "returns-error-message", "own-raw-query"][op as usize];
             Built { bf, body, variant, expect: e }
+        }
+        // the re-entrant kinds are not drawn by the general generator (ALL_T); see reent_req
+        T::RrSet | T::RrMerge | T::RrMergeRoot | T::RrRegFn | T::RrSetRoot | T::RrRead | T::RrCross | T::R2Cross | T::RrConst | T::RrW | T::PeerReg => {
+            let r = reent_req(token, t, 0, rng);
+            Built { bf: r.bf, body: r.body, variant: r.variant, expect: r.expect }
         }
     }
 }
@@ -900,4 +905,75 @@ pub fn bp_seq(seq: u64, rng: &mut Rng, st: &mut GenStats) -> (&'static str, Vec<
         }
     };
     (style, reqs)
+}
+
+// ------------------------------------------------------------------ re-entrant handlers (c03_re.rs)
+
+/// One well-formed request to a handler that re-enters the state it is served from (`t` in REENT_FN_T), or a plain value
+/// read / write on the same registry (`T::RrConst`, `T::RrW`).
+pub fn reent_req(token: u64, t: T, notify: u8, rng: &mut Rng) -> Req {
+    let r = Tin { t: token, op: if rng.chance(1, 8) { 1 } else { 0 }, c: rng.below(CODES.len() as u64) as u8, pad: pad(rng) };
+    let (bf, body, variant, expect): (u16, Vec<u8>, &'static str, Expect) = match t {
+        T::RrConst => (*rng.pick(&BF_ALL), vec![], "read", exp("ok", t, vec![0], false, ExpBody::Json(rr_const()))),
+        T::RrW => (2, enc(2, &r), "write", exp("ok", t, vec![0], false, ExpBody::Json(json!({"status": "ok", "path": "/w"})))),
+        T::PeerReg => {
+            let bf = *rng.pick(&[2u16, 2, 1, 3]);
+            (bf, enc(bf, &r), "calls-into-peer-registry", handler_outcome(t, &r, false))
+        }
+        _ => {
+            // registry function call: JSON / BEVE value, or the JSON text as UTF-8 / raw bytes (the function parses it)
+            let bf = *rng.pick(&[2u16, 2, 2, 1, 3, 0]);
+            (bf, enc(bf, &r), "re-enters-own-registry", handler_outcome(t, &r, false))
+        }
+    };
+    Req { id: id_of(token), token, version: 1, notify, qf: 1, query: t.path().as_bytes().to_vec(), bf, body, target: Some(t), variant, expect, reflect: None }
+}
+
+#[derive(Clone, Copy, PartialEq, Eq, Debug, Hash)]
+pub enum ReRole {
+    /// the pipeline calls re-entrant handlers, with ordinary requests before, between and behind them
+    Reentrant,
+    /// plain reads / writes of the same registry and ordinary requests only, on other connections at the same time
+    Bystander,
+}
+
+/// Pipelines that run concurrently on the same servers. Every re-entrant kind comes up in the first few pipelines.
+pub fn reent_pipelines(seq_base: u64, rng: &mut Rng, st: &mut GenStats, n: usize) -> Vec<(u64, ReRole, Vec<Req>)> {
+    let mut out = vec![];
+    let mut k = rng.usize_below(REENT_FN_T.len());
+    for i in 0..n {
+        let seq = seq_base + i as u64;
+        let role = if i % 3 == 2 { ReRole::Bystander } else { ReRole::Reentrant };
+        let mut tok = seq * 256;
+        let mut next = || {
+            tok += 1;
+            tok
+        };
+        let mut reqs = vec![];
+        let len = match rng.below(3) {
+            0 => 2 + rng.usize_below(5),
+            _ => 6 + rng.usize_below(40),
+        };
+        if role == ReRole::Reentrant {
+            for _ in 0..rng.usize_below(3) {
+                reqs.push(gen_req(next(), rng, st));
+            }
+        }
+        while reqs.len() < len {
+            match (role, rng.below(10)) {
+                (ReRole::Reentrant, 0..=4) => {
+                    let t = REENT_FN_T[k % REENT_FN_T.len()];
+                    k += 1;
+                    reqs.push(reent_req(next(), t, if rng.chance(1, 6) { 1 } else { 0 }, rng));
+                }
+                (_, 5 | 6) => reqs.push(reent_req(next(), if rng.coin() { T::RrConst } else { T::RrW }, if rng.chance(1, 8) { 1 } else { 0 }, rng)),
+                (ReRole::Bystander, 0 | 1) => reqs.push(reent_req(next(), T::RrConst, 0, rng)),
+                _ => reqs.push(gen_req(next(), rng, st)),
+            }
+        }
+        // always something ordinary answered behind the last re-entrant call
+        reqs.push(inline_req(next(), rng, st));
+        out.push((seq, role, reqs));
+    }
+    out
 }
